@@ -238,18 +238,22 @@ def gram_epoch_task(T, greedy):
         Gm = np.array([[R(v) for v in row] for row in G], dtype=object)
         w = np.array([R(v) for v in w0], dtype=object)
         grad = np.array([Gm[i, 0] * w[0] + Gm[i, 1] * w[1] - R(c[i]) + R(r[i]) for i in range(p)], dtype=object)
-        opt = kern(Gm, w, grad, L1(R(a)), greedy)
-        return w, grad, opt
+        pen = L1(R(a))
+        opt = kern(Gm, w, grad, pen, greedy)
+        # the returned scores must be those of the FINAL (w, grad) (the solver uses them as the next stopping value)
+        fresh = pen.subdiff_distance(w, grad, np.arange(p))
+        return w, grad, opt, fresh
 
     def post(out, pth):
-        w, grad, opt = out
-        return [(f'grad-Gw-preserved[{i}]', [], L(grad[i]) - (G[i][0] * L(w[0]) + G[i][1] * L(w[1])) == r[i] - c[i]) for i in range(p)]
+        w, grad, opt, fresh = out
+        return [(f'grad-Gw-preserved[{i}]', [], L(grad[i]) - (G[i][0] * L(w[0]) + G[i][1] * L(w[1])) == r[i] - c[i]) for i in range(p)] + \
+               [(f'returned-scores-are-those-of-the-final-point[{i}]', [], L(opt[i]) == L(fresh[i])) for i in range(p)]
     check_contract(T, 'epoch', run, pre, post, strength='B',
                    replay=dict(fn='contracts.kernels2:replay_gram_epoch', args=dict(greedy=greedy)))
 
 
 for _gr in (False, True):
-    add_task(['C01', 'C19', 'C20'], f'gram_cd:_gram_cd_epoch[greedy={_gr}]', gram_epoch_task, strength='B', greedy=_gr,
+    add_task(['C01', 'C17', 'C19', 'C20'], f'gram_cd:_gram_cd_epoch[greedy={_gr}]', gram_epoch_task, strength='B', greedy=_gr,
              tier=('thorough' if _gr else 'quick'))
 
 
